@@ -23,6 +23,16 @@ for d in sorted(glob.glob(root + "/*/")):
         if m:
             meta["confirmed_by_me"]["baseline_suite_with_change"] = {"ran": int(m.group(1)), "stable_pass_not_passing": int(m.group(3)),
                                                                    "not_passing": re.findall(r"NOT PASSING: (\S+)", t)}
+    sf = os.path.join(d, "suite.txt")
+    if os.path.exists(sf):
+        t = open(sf).read()
+        m = re.search(r"ran=(\d+) stable_pass=(\d+) stable_pass_not_passing=(\d+)", t)
+        m2 = re.search(r"suite_final_not_passing=(\d+)(.*)", t)
+        if m:
+            meta["confirmed_by_me"]["baseline_suite_with_change"] = {
+                "ran": int(m.group(1)), "stable_pass": int(m.group(2)), "not_passing_in_full_run": int(m.group(3)),
+                "passed_when_rerun_alone": re.findall(r"RERUN-ALONE PASS: (\S+)", t),
+                "still_not_passing": (m2.group(2).split() if m2 else None)}
     caught_any = False
     for cf in sorted(glob.glob(d + "check_*.txt")):
         tier = re.search(r"check_(\w+)\.txt", cf).group(1)
